@@ -340,8 +340,56 @@ def big(ctx, si, payload):
     ctx.distinct.add_rows(np.full(beta.size, 525.5), beta, alt, l, se)
 
 
+def fullbands(ctx, si, payload):
+    """The band a full run hands from the configuration to the field stage and to the antenna /
+    noise stage: compute() must call calculate_snr with the configured band, altitude, antenna number
+    and gain, the stored field has the configured band's bins, and the SNR recomputed from the stored
+    field with the configured band reproduces what the run used for its trigger."""
+    from nuspacesim.config import NssConfig
+
+    from .. import fullrun
+
+    for lo, hi in payload["bands"]:
+        cfg = NssConfig()
+        cfg.detector.optical.enable = False
+        cfg.simulation.thrown_events = 250
+        cfg.simulation.spectrum.log_nu_energy = 10.0
+        cfg.detector.radio.low_frequency, cfg.detector.radio.high_frequency = float(lo), float(hi)
+        cfg.detector.radio.nantennas = 7
+        cfg = core.validated(cfg, f"C20 full run, band {lo}-{hi} MHz")
+        wit = {"band": [lo, hi]}
+        sim, log = fullrun.compute(cfg, seed=payload["seed"], freeze=False)
+        if log.exception is not None or sim is None:
+            ctx.exception("raises", f"compute() raised for the radio band {lo}-{hi} MHz", log.exception, wit)
+            continue
+        ctx.count("fullrun-bands")
+        ctx.distinct.add(("fullrun-band", lo, hi))
+        if len(sim) == 0 or not log.snr:
+            continue
+        r = cfg.detector.radio
+        a = log.snr[0]["args"]
+        nb = int(round((hi - lo) / 10.0))
+        E = np.asarray(sim["EFields"], dtype=np.float64)
+        probs = []
+        if not (len(a) >= 5 and tuple(float(x) for x in a[1]) == (float(lo), float(hi)) and float(a[2]) == cfg.detector.initial_position.altitude and int(a[3]) == r.nantennas and float(a[4]) == r.gain):
+            probs.append(f"calculate_snr was called with band {tuple(a[1]) if len(a) > 1 else None}, altitude {a[2] if len(a) > 2 else None}, antennas {a[3] if len(a) > 3 else None}, gain {a[4] if len(a) > 4 else None} (configured: ({lo}, {hi}), {cfg.detector.initial_position.altitude}, {r.nantennas}, {r.gain})")
+        if E.ndim != 2 or E.shape[1] != nb:
+            probs.append(f"the stored field has {E.shape[1] if E.ndim == 2 else 'no'} bins, the configured band has {nb}")
+        else:
+            got = np.asarray(log.snr[0]["result"], dtype=np.float64)
+            want = np.array([ref_snr(E[i], float(lo), float(hi), cfg.detector.initial_position.altitude, r.nantennas, r.gain) for i in range(min(len(E), 60))])
+            sc = np.array([sum(abs(x) for x in E[i]) for i in range(want.size)])
+            if got.shape[0] != len(E) or not np.all(np.abs(got[: want.size] - want) <= 1e-9 * np.abs(want) + 1e-12 * np.abs(want).max() + 1e-300):
+                i = int(np.argmax(np.abs(got[: want.size] - want))) if got.shape[0] == len(E) else 0
+                probs.append(f"the SNR the run used for event {i} is {got[i] if got.size > i else None!r}; the stored field with the configured band's bin centres gives {want[i]!r}")
+        if probs:
+            ctx.violation("bands", f"full radio-only run, band {lo}-{hi} MHz: " + "; ".join(probs), wit)
+
+
 def entry(ctx, si, payload):
-    if payload["kind"] == "history":
+    if payload["kind"] == "fullbands":
+        fullbands(ctx, si, payload)
+    elif payload["kind"] == "history":
         history(ctx, si, payload)
     elif payload["kind"] == "big":
         big(ctx, si, payload)
@@ -362,9 +410,12 @@ def run(ctx):
         P.append({"kind": "rel", "dets": [d], "variants": variants if T else (variants[::2] if d != 525.0 else variants), "n": 300 if not T else 2500})
     P.append({"kind": "big", "n": 20000 if not T else 70001})
     P.append({"kind": "history"})
+    fb = [(0, 300), (30, 300), (0, 1650), (300, 1000), (10, 20), (1640, 1650)] + ([(0, 10), (50, 200), (1000, 1650), (0, 50)] if T else [])
+    for i in range(2):
+        P.append({"kind": "fullbands", "bands": fb[i::2], "seed": 41 + ctx.seed})
     core.run_shards(ctx, "nssmon.checks.c20", "entry", P, workers=16, timeout=ctx.pick(900, 5000))
     ctx.exhaustive_subspaces.append("all 13 695 frequency bands 10a <= lo < hi <= 1650 MHz")
-    for m in ("energy", "antennas", "order", "order-big-batch", "finite", "range", "range-inside", "bands", "bands-snr", "absolute", "history"):
+    for m in ("fullrun-bands", "energy", "antennas", "order", "order-big-batch", "finite", "range", "range-inside", "bands", "bands-snr", "absolute", "history"):
         ctx.require(m)
     if ctx.mon.get("bands", 0) != len(allb):
         ctx.inconclusive_because(f"only {ctx.mon.get('bands', 0)} of {len(allb)} bands were enumerated")
